@@ -9,7 +9,9 @@ type kind also occurs as an *orphan* (not referenced by anything) which can be r
 kind without invalidating the rest.
 
 No recursive input objects: building those from SDL overflows the stack on the pinned tree (a C11
-matter) and would only hide what these checks look for.
+matter) and would only hide what these checks look for.  No input-object-typed defaults either:
+build_schema fills nested field defaults into them, so that editing one input field legitimately
+changes the effective default of every position typed with that input object -- through SDL only.
 """
 import copy
 
@@ -35,8 +37,8 @@ def kitchen():
                     F("obj", "Obj", desc="an object"),
                     F("any", "Any"),
                     F("nums", "[Int!]!", [A("first", "Int!", 10), A("flt", "Filter")]),
-                    F("kind", "Kind", [A("of", "[Kind!]")], dep="r"),
-                    F("sc", "Sc", [A("s", "Sc", desc="scalar arg")]),
+                    F("kind", "Kind", [A("of", "[Kind!]", ["A", "B"])], dep="r"),
+                    F("sc", "Sc", [A("s", "Sc", desc="scalar arg"), A("note", "String", "a b")]),
                 ],
             ),
             T(
@@ -52,7 +54,7 @@ def kitchen():
             T(
                 "input",
                 "Filter",
-                fields=[A("min", "Int", 0), A("tags", "[String!]"), A("sub", "Sub"), A("req", "Int!", 1, desc="defaulted")],
+                fields=[A("min", "Int", 0), A("tags", "[String!]", ["x y", "z"]), A("sub", "Sub"), A("req", "Int!", 1, desc="defaulted")],
                 desc="an input",
             ),
             T("input", "Sub", fields=[A("k", "Kind", "A"), A("flag", "Boolean!")]),
